@@ -142,6 +142,18 @@ def rfc_judge(ctx, stream):
         if cur["compressed"]:
             cur["raw"].append(avail)
             app = None
+            if ctx.get("pmc_max") is None:
+                # a prefix of the compressed message that the inflater already rejects (or that already inflates to invalid
+                # UTF-8 in a text message) can never become valid: the violation is at this frame, whether or not the frame
+                # or the message is complete (the probe works on a copy of the connection's inflater)
+                if "z" not in cur:
+                    cur["z"] = inflater.copy() if inflater is not None else zlib.decompressobj(-15)
+                try:
+                    probe = cur["z"].decompress(avail)
+                except zlib.error:
+                    return out, ("fail", "zlib"), i
+                if cur["text"] and not utf8_prefix_ok(cur["dec"], probe):
+                    return out, ("fail", "payload"), i
         else:
             app = avail
             if cur["text"] and not utf8_prefix_ok(cur["dec"], app):
@@ -189,10 +201,17 @@ def codec_error_escaped(case, result):
     return bool(case.get("pmc")) and any(e[0] == "escaped" and e[1] == "error" for e in result["events"])
 
 
+def codec_raised(case, result):
+    """compression negotiated and the REAL decompressor raised (seen by the driver's wrapper around decompress_message_data /
+    end_decompress_message), whether the receive path caught it or let it escape"""
+    return bool(case.get("pmc")) and bool(result.get("codec_raised") or codec_error_escaped(case, result))
+
+
 def codec_rejected(case, result):
     """the real codec raised AND the stream really carries invalid compressed data (the oracle's inflater rejects it as
-    well): such a run has no model answer (the decompressor is an oracle of the model) and no meaningful segmentation twin"""
-    if not codec_error_escaped(case, result):
+    well): such a run has no model answer (the decompressor is a TOTAL oracle of the Gallina model: no error branch); it is
+    judged by the RFC oracle alone (1007 / drop, nothing delivered afterwards)"""
+    if not codec_raised(case, result):
         return False
     ctx = dict(server=case["role"] == "server", mask_opt=case["mask_opt"], apply_mask=case["apply_mask"], pmc=case["pmc"],
                utf8=case["utf8"], max_frame=case["max_frame"], max_msg=case["max_msg"], pmc_max=case.get("pmc_max"))
@@ -212,7 +231,9 @@ def check_against_rfc(case, result):
         # a frame flagged "compressed" whose payload is not deflate data (the oracle's own inflater rejects it too)
         if codec_error_escaped(case, result):
             return [(CODEC_ERROR_KEY, CODEC_ERROR_WHAT)]
-        return []          # otherwise outside this oracle
+        if case.get("pmc_max") is not None:
+            return []      # with a decompression cap the inflater is fed piecewise (C16): outside this oracle
+        verdict = ("fail", "payload")     # invalid compressed data is invalid payload: 1007 / drop, nothing delivered after it
     ev = result["events"]
     role = case["role"]
     probs = []
@@ -681,11 +702,26 @@ class Run:
         if pmce is not None:
             orig = pmce.decompress_message_data
 
+            self.codec_raised = []
+
             def rec(data, _orig=orig):
-                out = _orig(data)
+                try:
+                    out = _orig(data)
+                except Exception as e:
+                    self.codec_raised.append(type(e).__name__)
+                    raise
                 self.tape.append(bytes(out).hex())
                 return out
             pmce.decompress_message_data = rec
+            orig_end = pmce.end_decompress_message
+
+            def rec_end(_orig=orig_end):
+                try:
+                    return _orig()
+                except Exception as e:
+                    self.codec_raised.append(type(e).__name__)
+                    raise
+            pmce.end_decompress_message = rec_end
 
     def drain(self):
         """the reactor gets its turns: the write queue (one entry per turn, _QUEUED_WRITE_DELAY apart) drains"""
@@ -744,6 +780,8 @@ class Run:
                 elif e[0] == "escaped":
                     ev.append(["escaped", e[1]])
         res = {"events": ev, "state": state, "close": close, "tape": self.tape}
+        if getattr(self, "codec_raised", None):
+            res["codec_raised"] = self.codec_raised
         if retained is not None:
             res["retained"] = retained
         if sends is not None:
